@@ -53,6 +53,7 @@ def _post(s, unit, hdr, deb_task_prefix="EventDebouncer"):
     """Project the scheduler's log to the black-box lines."""
     out = [hdr]
     ready = False
+    stopper = None  # thread inside stop(): its first Event.set() is the debouncer's stop flag (hint `dbstop`)
 
     def u(x):
         return int(round((x - detsched.T0) / unit))
@@ -63,6 +64,11 @@ def _post(s, unit, hdr, deb_task_prefix="EventDebouncer"):
             d = {a: b for a, b in e.items() if a not in ("i", "now")}
             d["now"] = u(e["now"])
             out.append(d)
+            if k == "call" and e.get("op") == "stop" and hdr["debounced"]:
+                stopper = e["t"]
+        elif k == "set" and stopper is not None and e["t"] == stopper:
+            stopper = None
+            out.append({"t": e["t"], "e": "dbstop"})
         elif k == "proc":
             d = {"t": e["t"], "e": "proc", "k": e["k"], "pid": e["pid"] - 99, "alive": [p - 99 for p in e["alive"]],
                  "why": e.get("why", ""), "now": u(e["now"])}
@@ -168,6 +174,30 @@ def deb_program(params):
     return _wrap(program, DEB_UNIT, hdr, {"white": True})
 
 
+def deb_random(params):
+    """Random debouncer program derived from params['seed']: 1-2 producers, 2-5 events, a stopper now and then."""
+    import random
+
+    rng = random.Random(params["seed"] * 104729 + 7)
+    iv = rng.choice([2, 2, 0])
+    k = 0
+    threads = {}
+    for name in ("p", "q")[: rng.randint(1, 2)]:
+        ops = []
+        for _ in range(rng.randint(1, 3)):
+            if rng.random() < 0.6:
+                ops.append(["sleep", rng.choice([1, 2, 3])])
+            k += 1
+            ops.append(["ev", k])
+        threads[name] = ops
+    if rng.random() < 0.6:
+        threads["s"] = ([["sleep", rng.choice([1, 2, 3, 4, 6])]] if rng.random() < 0.7 else []) + [["stop"], ["join"]]
+    p = {"iv": iv, "threads": threads, "fam": "deb_random", "slowcb": rng.choice([0, 0, 0, 3])}
+    prog = deb_program(p)
+    prog.params = p
+    return prog
+
+
 # ----------------------------------------------------------------------------- AutoRestartTrick
 
 AR_UNIT = 0.05
@@ -262,9 +292,10 @@ def ar_program(params):
                     _settle(s)
                     s.log("quiescent")
 
-        ts = [th.Thread(target=worker, args=(ops,), name=n) for n, ops in sorted(threads.items())]
+        ts = [th.Thread(target=worker, args=(ops,), name=n) for n, ops in sorted(threads.items()) if n != "main"]
         for t in ts:
             t.start()
+        worker(threads.get("main", []))   # the main task plays environment / application itself (fewer tasks)
         for t in ts:
             t.join()
         _settle(s)
